@@ -101,6 +101,8 @@ class GOMoveIterationBoundariesInsideKernelTrans(Transformation):
         :type options: Optional[Dict[str, Any]]
 
         :raises TransformationError: if the node is not a GOKern.
+        :raises TransformationError: if the loops enclosing the kernel \
+            contain other kernels.
 
         '''
         if not isinstance(node, GOKern):
@@ -108,6 +110,16 @@ class GOMoveIterationBoundariesInsideKernelTrans(Transformation):
                 f"Error in {self.name} transformation. This transformation "
                 f"can only be applied to 'GOKern' nodes, but found "
                 f"'{type(node).__name__}'.")
+
+        # The iteration space of the enclosing loops is extended to the
+        # whole field, so every kernel inside them would need the mask.
+        inner_loop = node.ancestor(Loop)
+        outer_loop = inner_loop.ancestor(Loop) if inner_loop else None
+        if outer_loop and len(outer_loop.walk(GOKern)) > 1:
+            raise TransformationError(
+                f"Error in {self.name} transformation. The loops enclosing "
+                f"kernel '{node.name}' contain other kernels (fused loops). "
+                f"This is not supported.")
 
     def apply(self, node, options=None):
         '''Apply this transformation to the supplied node.
